@@ -182,7 +182,7 @@ Definition fg_update (M dt r0i ri G1 G2 G3 : T) (p : T * T * T * T * T * T) :=
 
 (* ---- solver phases; [beta r0 eta0 zeta0 dt] are fixed during the iteration ---- *)
 Section Phases.
-Variables (beta r0 eta0 zeta0 dt : T).
+Variables (beta r0 eta0 zeta0 dt : T) (shrink_far : bool).
 
 (* X = ri*(X*eta0Gs1zeta0Gs2 - eta0*Gs[2] - zeta0*Gs[3] + _dt) with ri = 1./(r0 + eta0Gs1zeta0Gs2) *)
 Definition newton_step (X : T) : T * (T * T * T * T) * T * bool :=
@@ -230,9 +230,12 @@ Fixpoint quartic_loop (k : nat) (X : T) (prev : list T) (Gs : T * T * T * T) (cn
       else quartic_loop k' X' (X' :: prev) Gs' (S cnt) (orb hang h)
   end.
 
-(* do{ stiefel_Gs3; s = r0*X+eta0*Gs[2]+zeta0*Gs[3]-_dt; if(s>=0.) X_max=X; else X_min=X; X=(X_max+X_min)/2.; }
+(* do{ stiefel_Gs3; s = r0*X+eta0*Gs[2]+zeta0*Gs[3]-_dt;
+       if (shrink_far && !isfinite(s)){ if(_dt>0.) X_max=X; else X_min=X; }      (fix 0366be3)
+       else if(s>=0.) X_max=X; else X_min=X;
+       X=(X_max+X_min)/2.; }
    while (fastabs(X_max-X_min) > fastabs((X_max+X_min)*1e-15));
-   Result: X, Gs, iterations, hang, out_of_fuel *)
+   !isfinite(s) is modelled as isnan(s - s).  Result: X, Gs, iterations, hang, out_of_fuel *)
 Fixpoint bisect_loop (fuel : nat) (X Xmin Xmax : T) (Gs : T * T * T * T) (cnt : nat) (hang : bool)
   : T * (T * T * T * T) * nat * bool * bool :=
   match fuel with
@@ -240,8 +243,9 @@ Fixpoint bisect_loop (fuel : nat) (X Xmin Xmax : T) (Gs : T * T * T * T) (cnt : 
   | S f =>
       let '((G0, G1, G2, G3), h) := stiefel_Gs3 beta X in
       let s := r0 * X + eta0 * G2 + zeta0 * G3 - dt in
-      let Xmax' := if nleb N 0 s then X else Xmax in
-      let Xmin' := if nleb N 0 s then Xmin else X in
+      let take_max := if andb shrink_far (nisnan N (s - s)) then nltb N 0 dt else nleb N 0 s in
+      let Xmax' := if take_max then X else Xmax in
+      let Xmin' := if take_max then Xmin else X in
       let X' := (Xmax' + Xmin') / (cz 2) in
       if nltb N (fastabs ((Xmax' + Xmin') * c_1em15)) (fastabs (Xmax' - Xmin'))
       then bisect_loop f X' Xmin' Xmax' (G0, G1, G2, G3) (S cnt) (orb hang h)
@@ -268,20 +272,22 @@ Definition main_phase (use_quartic : bool) (beta r0 eta0 zeta0 dt M X1 oldX : T)
 (* the `if (converged == 0){ ... }` block.  Result: X, Gs, ri, bisection iterations, hang, out of fuel *)
 Definition bisection_phase (flo : T -> T) (ell : bool) (beta r0 eta0 zeta0 dt M v2 X_per_period invperiod : T)
   (Gs2 : T * T * T * T) (h2 : bool) : T * (T * T * T * T) * T * nat * bool * bool :=
-  let '(Xmin, Xmax) :=
+  let '(Xmin, Xmax, shrink_far) :=
     if ell then
       let Xmin := X_per_period * flo (dt * invperiod) in
-      (Xmin, Xmin + X_per_period)
+      (Xmin, Xmin + X_per_period, false)
     else
       let hh2 := r0 * r0 * v2 - eta0 * eta0 in
-      let q := hh2 / M / (1 + nsqrt N (1 - hh2 * beta / (M * M))) in
+      let e2 := 1 - hh2 * beta / (M * M) in                 (* eccentricity squared *)
+      let q := hh2 / M / (1 + nsqrt N e2) in
+      let sf := nltb N e2 (cz 10000000000000000) in          (* shrink_far = (e2 < 1e16) *)
       let vq := copysign_dt (nsqrt N hh2 / q) dt in
       let Xmin := dt / (fastabs (vq * dt) + r0) in
       let Xmax := dt / q in
-      if nltb N dt 0 then (Xmax, Xmin) else (Xmin, Xmax) in
+      if nltb N dt 0 then (Xmax, Xmin, sf) else (Xmin, Xmax, sf) in
   let Xb := (Xmax + Xmin) / (cz 2) in
   let '(Xr, (G0, G1, G2, G3), cnt, h, oof) :=
-    bisect_loop beta r0 eta0 zeta0 dt BFUEL Xb Xmin Xmax Gs2 O h2 in
+    bisect_loop beta r0 eta0 zeta0 dt shrink_far BFUEL Xb Xmin Xmax Gs2 O h2 in
   let e12 := eta0 * G1 + zeta0 * G2 in
   (Xr, (G0, G1, G2, G3), 1 / (r0 + e12), cnt, h, oof).
 
